@@ -829,8 +829,119 @@ Section Entries.
     rewrite (generated_from_mapping_is_entry ct src over [] s Ht Hft Hod Hov Hsv). rewrite from_mapping_ig_nil.
     unfold run_entry, entry_plan, with_class. rewrite Ht. reflexivity.
   Qed.
+  (* from_other_class(<an instance>, ignore_props=ig, **over) *)
+  Definition fo_pick_ig (cd : classdef) (a : attrs) (over : kwargs) (ig : list pystr) (k : pystr) : option (pystr * pyval) :=
+    if str_in k ig || alist_has over k then None
+    else match getattr_opt cd a k with Some v => Some (k, v) | None => None end.
+  Definition from_other_kwargs_ig (cd ct : classdef) (a : attrs) (over : kwargs) (ig : list pystr) : kwargs :=
+    flat_map (fun k => olist (fo_pick_ig cd a over ig k)) (field_names ct) ++ over.
+
+  Lemma from_other_ig_nil cd ct a over : from_other_kwargs_ig cd ct a over [] = from_other_kwargs cd ct a over.
+  Proof.
+    unfold from_other_kwargs_ig, from_other_kwargs. f_equal. apply flat_map_ext. intro k. unfold fo_pick_ig.
+    cbn [str_in existsb orb]. destruct (alist_has over k); [reflexivity|]. destruct (getattr_opt cd a k); reflexivity.
+  Qed.
+
+  Theorem generated_from_other_ignore : forall cd ct a over ig,
+      find_class e (c_name cd) = Some cd -> find_class e (c_name ct) = Some ct ->
+      names_ok a = true -> vals_defined a = true -> defaults_defined cd = true -> fields_ok ct = true ->
+      has_dup (map fst over) = false -> vals_defined over = true ->
+      entry_view (Structure__from_other_class (EH cd ct) (EW cd ct) (ref (cobj (c_name ct))) (ref (s2p "self")) (ig_val ig)
+                    (kw_dict over) (inst_state a)) =
+      construct re_match e ct (from_other_kwargs_ig cd ct a over ig).
+  Proof.
+    intros cd ct a over ig Hd Ht Ha Hva Hdd Hft Hod Hov.
+    pose proof (resolves_ct cd ct) as Rt.
+    set (s := inst_state a).
+    unfold Structure__from_other_class.
+    rewrite (bindM_ok _ _ s s (PBool false) eq_refl). cbv zeta.
+    assert (HI : (c <~ (ret (py_truthy (ig_val ig))) ;; if c then (ret (ig_val ig)) else (ret (PList []))) s = (s, inl (PList (map PStr ig))))
+      by (destruct ig; reflexivity).
+    rewrite (bindM_ok _ _ _ _ _ HI). cbv zeta.
+    rewrite (class_fields cd ct ct Rt). rewrite (bindM_ok _ _ s s (fields_map ct) eq_refl).
+    assert (Hit : PyOpsVersioned.py_iter (fields_map ct) = Ok (map PStr (field_names ct))).
+    { unfold fields_map, PyOpsVersioned.py_iter, field_names. rewrite !map_map. reflexivity. }
+    rewrite Hit. rewrite (bindM_ok _ _ s s (map PStr (field_names ct)) eq_refl).
+    change (kw_dict over) with (PDict (pairs over)).
+    assert (HK : obj_getattr_def (EH cd ct) (ref (cobj (c_name ct))) (s2p "_constants") (PDict []) = Ok (PDict [])).
+    { unfold obj_getattr_def, ref. rewrite pystr_eqb_refl. rewrite Rt. reflexivity. }
+    assert (HF : forall k, In k (field_names ct) ->
+       (fun v_k_7 : pyval =>
+          (c <~ (andM (notM (lift (py_in_dyn v_k_7 (PList (map PStr ig)))))
+                      (fun _ => (andM (notM (lift (py_in_dyn v_k_7 (PDict (pairs over)))))
+                         (fun _ => (andM (t8 <~ lift (obj_getattr_def (EH cd ct) (ref (cobj (c_name ct))) (s2p "_constants") (PDict [])) ;;
+                                          notM (lift (py_in_dyn v_k_7 t8)))
+                                    (fun _ => (orM (hasattr_dynM (EH cd ct) (ref (s2p "self")) v_k_7)
+                                                   (fun _ => (ret (py_truthy (PBool false))))))))))) ;;
+           if c then (t11 <~ (c0 <~ (ret (py_truthy (PBool false))) ;;
+                              if c0 then (t9 <~ lift (obj_or_dict_get (EH cd ct) (ref (s2p "self")) v_k_7 PNone) ;; ret t9)
+                              else (t10 <~ getattr_dynM (EH cd ct) (ref (s2p "self")) v_k_7 (Some PNone) ;; ret t10)) ;;
+                      ret (Some (v_k_7, t11)))
+           else ret None)) (PStr k) s =
+       (s, inl (option_map ppair (fo_pick_ig cd a over ig k)))).
+    { intros k Hk. pose proof (field_name_ok ct k Hft Hk) as Hok. cbv beta.
+      assert (C1 : notM (lift (py_in_dyn (PStr k) (PList (map PStr ig)))) s = (s, inl (negb (str_in k ig)))).
+      { apply notM_eval. rewrite in_str_list. reflexivity. }
+      assert (C2 : notM (lift (py_in_dyn (PStr k) (PDict (pairs over)))) s = (s, inl (negb (alist_has over k)))).
+      { apply notM_eval. rewrite in_pairs. reflexivity. }
+      assert (C3 : (t8 <~ lift (obj_getattr_def (EH cd ct) (ref (cobj (c_name ct))) (s2p "_constants") (PDict [])) ;;
+                    notM (lift (py_in_dyn (PStr k) t8))) s = (s, inl (negb false))).
+      { rewrite HK. reflexivity. }
+      assert (C4 : orM (hasattr_dynM (EH cd ct) (ref (s2p "self")) (PStr k)) (fun _ => (ret (py_truthy (PBool false)))) s =
+                   (s, inl ((match getattr_opt cd a k with Some _ => true | None => false end) || false))).
+      { apply orM_eval; [exact (hasattr_self cd ct a k Hok) | reflexivity]. }
+      rewrite (bindM_ok _ _ _ _ _ (andM_eval _ _ _ _ _ C1 (andM_eval _ _ _ _ _ C2 (andM_eval _ _ _ _ _ C3 C4)))).
+      unfold fo_pick_ig. destruct (str_in k ig); [reflexivity|]. destruct (alist_has over k); [reflexivity|]. cbn [negb andb orb].
+      destruct (getattr_opt cd a k) as [v|] eqn:Eg; cbn [orb]; [|reflexivity].
+      rewrite bindM_assoc. rewrite (bindM_ok _ _ s s false eq_refl). cbv beta iota.
+      rewrite bindM_assoc. unfold s. rewrite (bindM_ok _ _ _ _ _ (getattr_self_def cd ct a k Hok)). rewrite Eg. reflexivity. }
+    rewrite (bindM_ok _ _ _ _ _ (filterMM_names _ (fo_pick_ig cd a over ig) s (field_names ct) HF)).
+    set (B := flat_map (fun k => olist (fo_pick_ig cd a over ig k)) (field_names ct)).
+    assert (Hnd : has_dup (map fst B) = false).
+    { apply flat_map_keys.
+      - unfold fields_ok in Hft. apply andb_true_iff in Hft. destruct Hft as [_ H]. apply negb_true_iff, H.
+      - intros k p H. unfold fo_pick_ig in H. destruct (str_in k ig || alist_has over k); [discriminate H|].
+        destruct (getattr_opt cd a k); inversion H; reflexivity. }
+    assert (Hud : forallb (fun p => negb (undefined_ref (snd p))) B = true).
+    { apply forallb_forall. intros p Hp. apply in_flat_map in Hp.
+      destruct Hp as [k [_ Hp]]. unfold fo_pick_ig in Hp. destruct (str_in k ig || alist_has over k); [destruct Hp|].
+      destruct (getattr_opt cd a k) as [v|] eqn:Eg; [|destruct Hp]. destruct Hp as [<-|[]]. cbn [snd].
+      apply negb_true_iff. exact (getattr_opt_defined cd a k v Hva Hdd Eg). }
+    assert (Hfresh : forall p, In p over -> alist_get B (fst p) = None).
+    { intros p Hp. apply alist_get_none_notin. destruct (str_in (fst p) (map fst B)) eqn:E; [|reflexivity].
+      apply str_in_true in E. apply in_map_iff in E. destruct E as [q [Eq Hq]]. apply in_flat_map in Hq.
+      destruct Hq as [k [_ Hq]]. unfold fo_pick_ig in Hq. destruct (str_in k ig); [destruct Hq|]. cbn [orb] in Hq. destruct (alist_has over k) eqn:Eo; [destruct Hq|].
+      destruct (getattr_opt cd a k); [|destruct Hq]. destruct Hq as [<-|[]]. cbn [fst] in Eq. subst k.
+      rewrite alist_has_keys2 in Eo. assert (str_in (fst p) (map fst over) = true) by (apply str_in_In, in_map, Hp). congruence. }
+    rewrite (dict_of_pairs _ Hnd). rewrite (bindM_ok _ _ s s (PDict (pairs B)) eq_refl). cbv zeta.
+    rewrite (bindM_ok _ _ s s (pairs B) eq_refl).
+    change (filterMM _ (pairs B)) with (filterMM undef_filter (pairs B)).
+    rewrite (bindM_ok _ _ _ _ _ (undef_filter_id s _ Hud)).
+    rewrite (dict_of_pairs _ Hnd). rewrite (bindM_ok _ _ s s (PDict (pairs B)) eq_refl).
+    change (PDict []) with (PDict (pairs [])).
+    rewrite (merge_pairs [] B Hnd (fun _ _ => eq_refl)). cbn [app].
+    rewrite (bindM_ok _ _ s s (PDict (pairs B)) eq_refl).
+    rewrite (bindM_ok _ _ s s (pairs over) eq_refl).
+    change (filterMM _ (pairs over)) with (filterMM undef_filter (pairs over)).
+    rewrite (bindM_ok _ _ _ _ _ (undef_filter_id s _ Hov)).
+    rewrite (dict_of_pairs _ Hod). rewrite (bindM_ok _ _ s s (PDict (pairs over)) eq_refl).
+    rewrite (merge_pairs B over Hod Hfresh). rewrite (bindM_ok _ _ s s (PDict (pairs (B ++ over))) eq_refl). cbv zeta.
+    unfold from_other_kwargs_ig. fold B.
+    unfold tryM. unfold bindM at 1. rewrite (new_is_construct cd ct ct _ s Rt (or_introl eq_refl) Hd Ht).
+    destruct (construct re_match e ct (B ++ over)) as [v|x]; [reflexivity|].
+    unfold lift, raiseM. unfold catches. cbn [x_cls existsb].
+    destruct (negb (model_level x) && (exc_subclass x TypeError || false)) eqn:Ec; [|reflexivity].
+    unfold obj_getattr, ref. rewrite pystr_eqb_refl. rewrite Rt.
+    change (class_attr e ct (s2p "__name__")) with (Some (PStr (c_name ct))).
+    rewrite (bindM_ok _ _ s s false).
+    - reflexivity.
+    - unfold bindM, lift, ret. cbn [PyOpsDerive.py_format]. unfold py_substr, exc_str. cbn [x_cls x_arg w_repr_str EW entry_world].
+      change (s2p ": missing a required argument") with (58%N :: s2p " missing a required argument").
+      destruct x; rewrite str_contains_nil; reflexivity.
+  Qed.
 End Entries.
 
+Print Assumptions generated_from_other_ignore.
 Print Assumptions generated_from_mapping_is_entry.
 Print Assumptions generated_from_mapping_is_run_entry.
 Print Assumptions generated_cast_to_is_entry.
